@@ -84,6 +84,20 @@ theorem covSetFrame_sep {h0 h : Heap} (sep : Sep h0 h) (c : Nat) (hc : h0.length
         · exact sep
   · exact sep
 
+theorem restoreSV_sep {h0 h : Heap} (sep : Sep h0 h) (s : SV) (hb : h0.length ≤ s.buf) (hd : h0.length ≤ s.data) :
+    Sep h0 (restoreSV h s) := by
+  unfold restoreSV
+  have s1 := sep.wr hb (.buf s.val) (by simp [refsOf])
+  simp only
+  split
+  · rename_i items hc
+    refine s1.wr hd _ ?_
+    intro x hx
+    rcases refs_insert hx with h1 | h1
+    · simp at h1
+    · exact s1.closed s.data _ hd hc x h1
+  · exact s1
+
 /-- the whole frame setter (state vector, then the covariance that follows it) on an object whose buffer and dict are new -/
 theorem setFrameTo_sep {h0 h1 : Heap} (sep : Sep h0 h1) (n : Nat) (s' : SV) (hs' : getSV h1 n = some s')
     (hb : h0.length ≤ s'.buf) (hd : h0.length ≤ s'.data) (fr : Fr) (env : Env) :
@@ -103,9 +117,12 @@ theorem setFrameTo_sep {h0 h1 : Heap} (sep : Sep h0 h1) (n : Nat) (s' : SV) (hs'
       split
       · rename_i cb cfr orb ofr hcell
         split
-        · exact covSetFrame_sep sb c (Good.new_of_cell sb.pres hg hcell (by intro t; simp)) fr env
+        · have cs := covSetFrame_sep sb c (Good.new_of_cell sb.pres hg hcell (by intro t; simp)) fr env
+          split
+          · rename_i h3 e he; rw [he] at cs; exact restoreSV_sep cs s' hb hd
+          · rename_i h3 he; rw [he] at cs; exact cs
         · exact sb
-      · exact sb
+      · exact restoreSV_sep sb s' hb hd
     · exact sb
 
 theorem setFrame_sep {h0 h1 : Heap} (sep : Sep h0 h1) (n : Nat) (s' : SV) (hs' : getSV h1 n = some s')
@@ -337,5 +354,51 @@ theorem arrSet_sep {h0 h : Heap} (sep : Sep h0 h) {n : Nat} (hn : h0.length ≤ 
         exact sep.wr (newEntry sep hn hs hl hc (by intro t; simp)) _ (by simp [refsOf])
       · exact sep
     · exact sep
+
+/-! ### `copy.deepcopy` -/
+
+/-- `obj._data["maneuvers"] = r` on an object that is `Good` (new as soon as it is a state vector) with `r` new -/
+theorem setMans_sep {h0 h : Heap} (sep : Sep h0 h) {x : Nat} (hx : Good h0 x) (r : Ref) (hr : ∀ y, r = .addr y → Good h0 y) :
+    Sep h0 (setMans h x r) := by
+  unfold setMans
+  split
+  · rename_i s hs
+    obtain ⟨hc, _, _⟩ := getSV_cells h x s hs
+    have hxn : h0.length ≤ x := Good.new_of_cell sep.pres hx hc (by intro t; simp)
+    obtain ⟨_, hd, hg⟩ := newSV sep hxn hs
+    refine sep.wr hd _ ?_
+    intro y hy
+    rcases refs_insert hy with h1 | h1
+    · exact hr y h1
+    · exact hg y h1
+  · exact sep
+
+/-- a deep copy in progress keeps the separation invariant (the memo may hold entries of an earlier call) -/
+theorem deepRef_sep {h0 : Heap} (st : DState) (inv : DeepInv (Good h0) h0 st) (r : Ref) :
+    DeepInv (Good h0) h0 (deepRef deepFuel st r).1 ∧ ∀ x, (deepRef deepFuel st r).2 = some (.addr x) → h0.length ≤ x :=
+  deepRef_ok (P := Good h0) (h0 := h0) (fun _ hx => Good.new hx) deepFuel st r inv
+
+theorem deepMansOf_sep {h0 : Heap} (st : DState) (inv : DeepInv (Good h0) h0 st) (ol : Option Nat) :
+    DeepInv (Good h0) h0 (deepMansOf st ol).1 ∧ ∀ r y, (deepMansOf st ol).2 = some (some r) → r = .addr y → Good h0 y := by
+  unfold deepMansOf
+  split
+  · rename_i l
+    have hd := deepRef_sep st inv (.addr l)
+    split
+    · rename_i st' r he
+      rw [he] at hd
+      exact ⟨hd.1, fun r' y h1 h2 => by simp at h1; subst h1; subst h2; exact Good.new (hd.2 y rfl)⟩
+    · rename_i st' he
+      rw [he] at hd
+      exact ⟨hd.1, fun r' y h1 _ => by simp at h1⟩
+  · exact ⟨inv, fun r y h1 _ => by simp at h1⟩
+
+theorem setMansOpt_sep {h0 h : Heap} (sep : Sep h0 h) (ox : Option Nat) (hx : ∀ x, ox = some x → Good h0 x) (r : Option Ref)
+    (hr : ∀ r' y, r = some r' → r' = .addr y → Good h0 y) : Sep h0 (setMansOpt h ox r) := by
+  unfold setMansOpt
+  split
+  · rename_i x r'
+    exact setMans_sep sep (hx x rfl) r' (fun y hy => hr r' y rfl hy)
+  · exact sep
 
 end BeyondVerif.Heap
